@@ -394,6 +394,10 @@ func (g *Gen) modOp(st *State) Ev {
 			e.Freq = g.in(0, t, t+1)
 			e.Total = g.in(-1, 1, 2, 3)
 		}
+		if g.chance(0.4) { // a module that acts on its context from inside its callbacks
+			e.RResp = g.pick([]string{"", "pause", "kill", "kill"})
+			e.RState = g.pick([]string{"", "", "kill", "pause"})
+		}
 		return e
 	}
 	c := mods[g.R.Intn(len(mods))]
